@@ -43,6 +43,12 @@ struct State {
     t: Transition,
     tours: ImHashMap<VehicleIdx, Tour>,
     cur: Vec<(String, u64)>,
+    // batch mode (as Schedule::update_transitions_and_violation_fast uses the API): `base` are the stale
+    // tours of the batch start, `upd` the tours updated one by one since then
+    batch: bool,
+    base: ImHashMap<VehicleIdx, Tour>,
+    upd: ImHashMap<VehicleIdx, Tour>,
+    gone: Vec<VehicleIdx>,
 }
 
 fn vid(pool: &Pool, id: &str) -> VehicleIdx {
@@ -54,7 +60,23 @@ fn apply(pool: &Pool, st: &State, op: &Value) -> State {
     let name = op["op"].as_str().unwrap();
     let a = op["args"].as_array().unwrap();
     let mut st = st.clone();
-    let none: ImHashMap<VehicleIdx, &Tour> = ImHashMap::new();
+    // a batch touches every vehicle at most once (the schedule never adds and updates, or updates
+    // twice, one vehicle in one call); move / three_opt take one map of current tours
+    let target = if name == "move" || name == "three_opt" { None } else { a[0].as_str().map(|v| vid(pool, v)) };
+    if st.batch && target.map(|v| st.upd.contains_key(&v) || st.gone.contains(&v)).unwrap_or(true) {
+        st.base = st.tours.clone();
+        st.upd = ImHashMap::new();
+        st.gone = Vec::new();
+    }
+    let upd_snapshot = st.upd.clone();
+    let old_snapshot = if st.batch { st.base.clone() } else { st.tours.clone() };
+    let mut none: ImHashMap<VehicleIdx, &Tour> = ImHashMap::new();
+    if st.batch {
+        for (k, t) in upd_snapshot.iter() {
+            none.insert(*k, t);
+        }
+    }
+    let old = &old_snapshot;
     let set_cur = |cur: &mut Vec<(String, u64)>, v: &str, k: u64| {
         cur.retain(|(x, _)| x != v);
         cur.push((v.to_string(), k));
@@ -64,7 +86,8 @@ fn apply(pool: &Pool, st: &State, op: &Value) -> State {
             let v = a[0].as_str().unwrap();
             let k = a[1].as_u64().unwrap();
             let new = pool.alts[v][(k - 1) as usize].clone();
-            st.t = st.t.update_vehicle(vid(pool, v), &new, &none, &st.tours, nw);
+            st.t = st.t.update_vehicle(vid(pool, v), &new, &none, old, nw);
+            st.upd.insert(vid(pool, v), new.clone());
             st.tours.insert(vid(pool, v), new);
             set_cur(&mut st.cur, v, k);
         }
@@ -73,12 +96,14 @@ fn apply(pool: &Pool, st: &State, op: &Value) -> State {
             let k = a[1].as_u64().unwrap();
             let new = pool.alts[v][(k - 1) as usize].clone();
             st.t = st.t.add_vehicle_to_own_cycle(vid(pool, v), &new, nw);
+            st.upd.insert(vid(pool, v), new.clone());
             st.tours.insert(vid(pool, v), new);
             set_cur(&mut st.cur, v, k);
         }
         "remove" => {
             let v = a[0].as_str().unwrap();
-            st.t = st.t.remove_vehicle(vid(pool, v), &none, &st.tours, nw);
+            st.t = st.t.remove_vehicle(vid(pool, v), &none, old, nw);
+            st.gone.push(vid(pool, v));
             st.tours.remove(&vid(pool, v));
             st.cur.retain(|(x, _)| x != v);
         }
@@ -87,8 +112,15 @@ fn apply(pool: &Pool, st: &State, op: &Value) -> State {
             let k = a[1].as_u64().unwrap();
             let c = a[2].as_u64().unwrap() as usize - 1;
             let new = pool.alts[v][(k - 1) as usize].clone();
-            st.tours.insert(vid(pool, v), new);
-            st.t = st.t.add_vehicle_at_the_end(vid(pool, v), c, &none, &st.tours, nw);
+            st.tours.insert(vid(pool, v), new.clone());
+            if st.batch {
+                let mut with_new = none.clone();
+                with_new.insert(vid(pool, v), &pool.alts[v][(k - 1) as usize]);
+                st.t = st.t.add_vehicle_at_the_end(vid(pool, v), c, &with_new, old, nw);
+            } else {
+                st.t = st.t.add_vehicle_at_the_end(vid(pool, v), c, &none, &st.tours, nw);
+            }
+            st.upd.insert(vid(pool, v), new);
             set_cur(&mut st.cur, v, k);
         }
         "move" => {
@@ -168,7 +200,12 @@ pub fn run(opts: &Opts) -> i32 {
     let pool = Pool { nw: nw.clone(), alts, ix, probe: materialise(&nw, &resolve(&p["probe"])) };
     for case in lines.iter().skip(1) {
         let n = case["case"].as_u64().unwrap();
-        let start = State { t: Transition::new_fast(&[], &ImHashMap::new(), &nw), tours: ImHashMap::new(), cur: Vec::new() };
+      for batch in [false, true] {
+        let start = State { t: Transition::new_fast(&[], &ImHashMap::new(), &nw), tours: ImHashMap::new(), cur: Vec::new(),
+            batch, base: ImHashMap::new(), upd: ImHashMap::new(), gone: Vec::new() };
+        if batch && case["hist"].as_array().unwrap().len() < 2 {
+            continue; // a batch of one call is the immediate mode
+        }
         let replay = guarded(|| {
             let mut st = start.clone();
             for op in case["hist"].as_array().unwrap() {
@@ -193,6 +230,7 @@ pub fn run(opts: &Opts) -> i32 {
                 Err(m) => out.emit(&json!({"ev": "tr", "case": n, "stage": "next", "k": k + 1, "ok": false, "panic": true, "msg": m})),
             }
         }
+      }
     }
     out.flush();
     0
